@@ -83,17 +83,13 @@ func suspectShape(sd *structD, err error) string {
 	if pick == nil {
 		return "?"
 	}
-	sh := "scalar"
-	if !pick.scalar() {
-		sh = pick.Kind.String()
+	if pick.scalar() {
+		return "scalar"
 	}
 	if pick.Ptr > 0 {
-		sh = "pointer-to-" + sh
+		return "pointer-to-" + pick.Kind.String()
 	}
-	if pick.Elem != nil && pick.Elem.Ptr > 0 {
-		sh += "-of-pointer"
-	}
-	return sh
+	return pick.Kind.String()
 }
 
 type evalReq struct {
@@ -566,13 +562,22 @@ func (h *harness) runShapes(t *testing.T) {
 						continue
 					}
 					sd := &structD{Fields: []*fieldD{f, {GoName: "Z", Src: "json", Key: "z", Kind: reflect.Int, Opt: optPlain}}}
-					for i := 0; i < 4; i++ {
+					for i := 0; i < 5; i++ {
 						ig := &inputGen{r: c.R, e: e}
 						tree := ig.validTree(sd, e, 0)
-						if i == 3 {
+						switch {
+						case i == 3:
 							var slots []slot
 							collectSlots(sd.Fields, e.Ctx, tree, &slots)
 							ig.perturb(kit.Choose(c.R, slots), e)
+						case i == 4 && f.Kind == reflect.Slice:
+							tree["a"] = []any{}
+							ig.note(f, "->empty-list")
+						case i == 4 && f.Kind == reflect.Map:
+							tree["a"] = map[string]any{}
+							ig.note(f, "->empty-object")
+						case i == 4:
+							continue
 						}
 						h.evalEntry(c, sd, e, tree, sh.name+":"+strings.Join(ig.classes, ","))
 					}
